@@ -191,6 +191,76 @@ def a64_programs(rng, n):
     return progs
 
 
+def a64_list_programs(rng, n, tbl=False):
+    """AArch64 register-list instructions that need consecutive physical registers, with overlapping / conflicting lists"""
+    R, I, M = c05_gen.R, c05_gen.Imm, c05_gen.Mem
+    progs = []
+    for k in range(n):
+        nv = rng.choice([3, 4, 5, 6, 8, 12, 30])
+        regs = [("p", "ptr")] + [("q%d" % i, "v128") for i in range(nv)]
+        vec = ["q%d" % i for i in range(nv)]
+        body = [("i", "ldr", [R(v, "q"), M(0, "p", 16 * (i % 16))]) for i, v in enumerate(vec)]
+        for _ in range(rng.randrange(3, 14)):
+            c = rng.random()
+            cnt = rng.randrange(1, 5)
+            lst = rng.sample(vec, min(cnt, len(vec)))
+            if tbl and c < 0.6:
+                d, idx = rng.choice(vec), rng.choice(vec)
+                body.append(("i", rng.choice(["tbl", "tbx"]), [R(d, "b16")] + [R(v, "b16") for v in lst] + [R(idx, "b16")]))
+            elif c < 0.45:
+                body.append(("i", "ld%d" % len(lst), [R(v, "s4") for v in lst] + [M(0, "p", 0)]))
+            elif c < 0.8:
+                body.append(("i", "st%d" % len(lst), [R(v, "s4") for v in lst] + [M(0, "p", 0)]))
+            else:
+                body.append(("i", rng.choice(["add", "eor"]), [R(rng.choice(vec), "b16"), R(rng.choice(vec), "b16"), R(rng.choice(vec), "b16")]))
+        for i, v in enumerate(vec[:16]):
+            body.append(("i", "str", [R(v, "q"), M(0, "p", 16 * i)]))
+        body.append(("ret", None))
+        progs.append({"arch": ["a64"], "regs": regs, "stacks": [], "ret": "void", "argtypes": ["ptr"], "args": ["p"], "body": body, "inputs": [],
+                      "family": "a64-tbl" if tbl else "a64-lists"})
+    return progs
+
+
+def byref_programs(rng, n):
+    """Win64 / vectorcall calls with vector arguments passed by reference, immediates and many arguments (validation only)"""
+    R, I, M = c05_gen.R, c05_gen.Imm, c05_gen.Mem
+    progs = []
+    for k in range(n):
+        nx = rng.randrange(1, 6)
+        regs = [("p", "ptr"), ("a", "u64"), ("b", "u64"), ("r", "u64")] + [("x%d" % i, "v128") for i in range(nx)]
+        body = [("i", "movdqu", [R("x%d" % i), M(16, "p", 16 * i)]) for i in range(nx)]
+        body.append(("i", "lea", [R("b"), M(0, "a", 5)]))
+        for _ in range(rng.randrange(1, 4)):
+            args = []
+            for j in range(rng.randrange(1, 5)):
+                c = rng.random()
+                if c < 0.45:
+                    args.append("v128=x%d" % rng.randrange(nx))
+                elif c < 0.8:
+                    args.append("u64=%s" % rng.choice(["a", "b"]))
+                else:
+                    args.append("u64=#%d" % rng.randrange(0, 100000))
+            body.append(("raw", "callx %s %s %s" % (rng.choice(["win64", "vectorcall"]), rng.choice(["-", "u64=r"]), " ".join(args))))
+            body.append(("i", "paddd", [R("x%d" % rng.randrange(nx)), R("x%d" % rng.randrange(nx))]))
+        body.append(("i", "mov", [R("r"), R("a")]))
+        for i in range(nx):
+            body.append(("i", "movdqu", [M(16, "p", 16 * i), R("x%d" % i)]))
+        body.append(("ret", "r"))
+        progs.append({"arch": ["x64"], "regs": regs, "stacks": [], "ret": "u64", "argtypes": ["ptr", "u64"], "args": ["p", "a"], "body": body, "inputs": [],
+                      "family": "x64-byref"})
+    return progs
+
+
+def avx512_programs(rng, n, tier):
+    progs = []
+    for i in range(n):
+        g = c05_gen.GenX64(rng, rng.choice([2, 4, 8, 16, 30]), rng.randrange(5, 80), features=["avx512"])
+        p = g.build(ninputs=4)
+        p["family"] = "x64-avx512"
+        progs.append(p)
+    return progs
+
+
 def x86_32_programs(rng, n):
     R, I, M, L = c05_gen.R, c05_gen.Imm, c05_gen.Mem, c05_gen.Lbl
     progs = []
@@ -294,7 +364,7 @@ def run(res):
         "instructions are functions of the locations InstAPI::query_rw_info says they read (RW tables = C12); an exec mismatch on a validated program exposes a wrong RW entry",
         "prolog/epilog instructions are frame instructions: they only destroy the registers they write (C07)",
         "ABI locations of arguments / return values come from FuncDetail (C06)",
-        "an inserted move of w bytes copies every virtual register of at most w bytes exactly; stack slots do not overlap each other or user stack areas",
+        "an inserted move of w bytes copies every virtual register of at most w bytes exactly",
         "AArch64 and x86-32 functions are validated, not executed"]
     broken = []
     ok, out = vlib.lean_stage(res, PID, MODS)
@@ -312,7 +382,11 @@ def run(res):
     progs += random_programs(rng, 260 if quick else 4000, res.tier)
     progs += a64_programs(rng, 90 if quick else 1500)
     progs += x86_32_programs(rng, 50 if quick else 800)
+    progs += byref_programs(rng, 30 if quick else 400)
+    progs += avx512_programs(rng, 40 if quick else 500, res.tier)
     lines = [c05_gen.render(p) for p in progs]
+    # register-list families run one process per program: the allocator itself crashes on some of them (open findings)
+    list_progs = a64_list_programs(rng, 30 if quick else 300) + a64_list_programs(rng, 12 if quick else 100, tbl=True)
 
     def run_batch(ls):
         impl, rc, err = vlib.run_lines([str(h)], ls, timeout=3000)
@@ -329,6 +403,37 @@ def run(res):
     if rc2 != 0 or len(verdicts) != len(impl):
         res.violation("driver protocol failure rc=%d lines %d/%d %s" % (rc2, len(verdicts), len(impl), err2[-500:]), {}, found_input=False, key="protocol")
         return
+
+    # ---- AArch64 register lists (consecutive registers): one harness process per program -------------------------
+    list_stats = collections.Counter()
+    list_first = {}
+    for p in list_progs:
+        l = c05_gen.render(p)
+        o, rc3, err3 = vlib.run_lines([str(h)], [l], timeout=120)
+        if rc3 != 0 or not o:
+            k = "abort"
+            info = ([x for x in err3.splitlines() if "ERROR: AddressSanitizer" in x or "runtime error" in x] + [x for x in err3.splitlines() if " #0 " in x or " #1 " in x])[:3]
+        else:
+            v, _, _ = vlib.run_model("C05", o)
+            k = v[0].split()[0] if o[0].startswith("ok") else o[0].split()[0]
+            info = v[0][:500] if o[0].startswith("ok") else o[0][:200]
+            if k == "reject":
+                d, _, _ = vlib.run_model("C05", ["diff " + o[0]])
+                info = {"validator": v[0][:600], "abstract_machine": d[0][:600] if d else ""}
+        list_stats[p["family"] + ":" + k] += 1
+        list_first.setdefault((p["family"], k), (l, info))
+    res.coverage["register_list_families"] = dict(list_stats)
+    for (famname, k), (l, info) in sorted(list_first.items()):
+        if k in ("valid", "raerr"):
+            continue
+        what = {"abort": "the register allocator crashes (sanitizer report) on a function with register lists",
+                "sererr": "the allocated function cannot be serialized (register list not consecutive / invalid form)",
+                "reject": "the proved validator refuses the allocation of a function with register lists",
+                "unsupported": "validator cannot follow"}.get(k, k)
+        if k == "unsupported":
+            continue
+        found = k == "abort" or (k == "reject" and isinstance(info, dict) and info["abstract_machine"].startswith("differ"))
+        res.violation("%s [%s]: %s" % (what, famname, str(info)[:700]), {"ops": [l], "detail": info}, found_input=found, key="%s:%s" % (k, famname))
 
     stats = collections.Counter()
     fam = collections.Counter()
@@ -351,6 +456,11 @@ def run(res):
         elif k == "unsupported":
             unsupported[" ".join(v.split()[:4])] += 1
         elif k == "reject":
+            if p["family"] == "x64-avx512":
+                stats["avx512_refused_untriaged"] += 1      # executed on the host; a refusal alone is not reported for this family yet
+            else:
+                rejects.append(i)
+        elif k == "sererr":
             rejects.append(i)
         n, bad, und = judge_exec(p, o)
         nexec += n
@@ -371,6 +481,16 @@ def run(res):
     res.coverage["allocator_inserted_instructions"] = inserted
     res.coverage["allocator_deleted_instructions"] = deleted
     res.coverage["exhaustive"] = False
+    res.coverage["trusted_translation"] = [
+        "RW classification of every operand from InstAPI::query_rw_info (a write not covering the virtual register = read-modify-write)",
+        "instruction key = mnemonic + options + operand shapes/sizes/immediates/labels/displacements; twin instructions with equal keys compute the same function",
+        "move whitelist with byte widths (mov/movaps/movdqa/vmovdqa32/kmov*/ldr/str ...); xchg = swap with width",
+        "width-aware idiom rules of the validator itself (xor r,r; or r,r; op r,0; or r,-1)",
+        "register-to-memory substitution: same function when the memory form exists (InstAPI::validate on the allocated instruction) and does not lose a zero extension",
+        "immediate call arguments: `K := const v` in the virtual program, the allocator's `mov loc, imm` is the same const function",
+        "by-reference arguments: the callee reads the temporary whose address (`lea reg, [sp+X]`) is passed",
+        "prolog/epilog = frame instructions that only destroy what they write (C07); ABI locations from FuncDetail (C06)",
+        "CHECKED, not assumed: stack slots pairwise disjoint and disjoint from user stack areas (from the dumped operands), allocated instructions valid and the function serializable"]
     for i in (0, len(idiom_programs()) + 1, len(progs) - 60, len(progs) - 1):
         res.add_samples([{"program": lines[i][:600], "verdict": verdicts[i][:200]}])
 
@@ -415,6 +535,14 @@ def run(res):
             o2, _, _ = run_batch([c05_gen.render(q)])
             if o2 and o2[0].startswith("ok"):
                 _, found, _ = judge_exec(q, o2[0])
+        if not found and p["arch"][0] != "x64":
+            # AArch64 / x86-32: both IR programs on the Lean abstract machine (concrete mov/add/sub/and/or/xor/shift/mul keys, the rest hashed)
+            d, _, _ = vlib.run_model("C05", ["diff " + impl[i]])
+            if d and d[0].startswith("differ"):
+                res.violation("validator refuses and the two programs differ on the Lean abstract machine (%s): %s; %s" % (p["family"], d[0][:500], verdicts[i][:300]),
+                              {"ops": [lines[i]], "abstract_machine": d[0][:1500], "validator": verdicts[i][:1000]}, found_input=True, key="miscompile:refused:" + p["family"])
+                reported += 1
+                continue
         if found:
             res.violation("validator refuses and execution differs: input %s expected %s got %s; %s" % (found["input"], found["expected"][:120], found["got"][:120], verdicts[i][:300]),
                           {"ops": [c05_gen.render(q)], "mismatch": found, "validator": verdicts[i][:1000]}, found_input=True, key="miscompile:refused")
